@@ -99,6 +99,23 @@ func (r *Run) Enabled() []wx.Op {
 				if ill {
 					add(OpNewBatchZero, int8(si), 0, 0, 0)
 					add(OpNewBatchZero, int8(si), -1, 0, 0)
+					if rel < 0 && len(set) > 0 {
+						// batch creation with a target although the relation given to the builder is not a relation
+						// component / not among the components
+						tl := []int8{-1}
+						if len(targets) > 1 {
+							tl = append(tl, targets[1])
+						}
+						for _, t := range tl {
+							add(OpNewBatchRel, int8(si), int8(set[0]), t, 0)
+							for ci, k := range c.Comps {
+								if k.IsRel() {
+									add(OpNewBatchRel, int8(si), int8(ci), t, 0)
+									break
+								}
+							}
+						}
+					}
 				}
 			}
 		}
